@@ -413,6 +413,12 @@ class Interp:
                         dflt = s
                 if tgt is None:
                     tgt = dflt if dflt is not None else succ[-1]
+                if tgt is None:
+                    # clang prunes the edge to `default:` when the cases cover every enumerator; a value outside the enumeration still goes there
+                    cands = [x for x in fn.blocks if (fn.blocks[x].get('label') or {}).get('k') == 'DefaultStmt' and not fn.preds.get(x)]
+                    if len(cands) != 1:
+                        self.broken(fn, t, 'switch value %r matches no case and the default arm cannot be located' % (sv,))
+                    tgt = cands[0]
                 b = tgt
                 continue
             cond = t.get('cond')
@@ -595,6 +601,8 @@ class Interp:
                     if p.rec is None:
                         raise Violation('a null pointer is dereferenced', fn.loc(e))
                     val[i] = LV([p.rec], 0)
+                elif callable(p):
+                    val[i] = p                 # *fp of a function pointer is the function
                 else:
                     self.broken(fn, e, 'dereference of a %s' % type(p).__name__)
                 return
@@ -765,7 +773,9 @@ class Interp:
             return ('ret', v)
         if k in ('CXXConstructExpr', 'CXXTemporaryObjectExpr'):
             args = [V(x) for x in (e.get('args') if e.get('args') is not None else c)]
-            if e.get('copyctor') or e.get('movector'):
+            k_ = self.lookup(fn, e)
+            user = k_ is not None and not self.fx.raw['functions'][k_].get('implicit') and self.fx.raw['functions'][k_].get('blocks')
+            if (e.get('copyctor') or e.get('movector')) and not (user and (e.get('fq') or '') not in self.natives and getattr(self, 'run_user_copies', False)):
                 src = self.rv(args[0])
                 if not isinstance(src, Rec):
                     self.broken(fn, e, 'copy construction from a %s' % type(src).__name__)
@@ -870,6 +880,10 @@ class Interp:
         if argids is None:
             argids = (e.get('c') or [])[1:]
         args = [val.get(x) if isinstance(x, int) else (fn.N(x).get('v')) for x in argids]
+        if not fq and e.get('c') and isinstance(e['c'][0], int):
+            cv = self.rv(val.get(e['c'][0]))
+            if callable(cv):
+                return cv(self, fn, e, None, args)       # a call through a function pointer whose value the harness supplied (an application callback)
         obj = None
         if e.get('mcall') or e['k'] == 'CXXMemberCallExpr':
             o = val.get(e.get('obj')) if e.get('obj') is not None else None
@@ -900,6 +914,8 @@ class Interp:
             return self.vec_native(fn, e, short, obj, args)
         if fq.startswith('std::numeric_limits<float>::max'):
             return Op('max')
+        if fq in ('std::move', 'std::forward'):
+            return args[0]
         if fq in ('be::swap',):
             return self.rv(args[0])              # byte order is a representation detail: the abstract cell holds the value
         if fq in ('be::peek',):
